@@ -1,3 +1,149 @@
-//! C15 — not built yet.
+//! C15 — limits and tolerances never turn into wrong answers.
+//!
+//! Small MILPs × time limits (0 ns, 1 ns, 1 µs, 1 ms, none) × MIP gaps (none, 0, small, large, huge, negative, NaN,
+//! +inf) through `solve_milp_lp_problem_with` in the killable worker.  The wrapper model is diffed where microlp's
+//! answer does not depend on the clock (no limit, or a 0 ns limit) using the raw answer of the mirror; every answer
+//! goes to the exact oracle: returned point certificate-checked, label compared with the certified optimum and the
+//! requested gap, invalid options must be rejected.
 use crate::case::Case;
-pub fn generate(_seed: u64, _n: usize, _thorough: bool, _corpus: Option<&str>) -> Vec<Case> { vec![] }
+use crate::child::{self, Opts, Outcome, SolverKind};
+use crate::gen_lp::{self, Doms, LpCfg};
+use crate::props::c04::show_model;
+use crate::rng::Rng;
+use crate::sx;
+use rooc::{Comparison, LinearModel, OptimizationType, VariableType};
+use std::time::Duration;
+
+const TIMEOUT: Duration = Duration::from_secs(3);
+pub const LIMITS: [Option<u64>; 5] = [None, Some(0), Some(1), Some(1_000), Some(1_000_000)];
+
+pub fn gaps() -> Vec<(Option<f64>, &'static str)> {
+    vec![(None, "gap-none"), (Some(0.0), "gap-zero"), (Some(1e-9), "gap-small"), (Some(0.5), "gap-large"), (Some(10.0), "gap-huge"),
+         (Some(-1.0), "gap-negative"), (Some(f64::NAN), "gap-nan"), (Some(f64::INFINITY), "gap-inf"), (Some(-0.0), "gap-negzero")]
+}
+
+fn knapsack(r: &mut Rng) -> LinearModel {
+    let n = 3 + r.below(4);
+    let mut m = LinearModel::new();
+    for i in 0..n { m.add_variable(&format!("b{}", i), VariableType::Boolean); }
+    let w: Vec<f64> = (0..n).map(|_| 1.0 + r.below(5) as f64).collect();
+    let cap = (w.iter().sum::<f64>() / 2.0).floor();
+    m.add_named_constraint(w, Comparison::LessOrEqual, cap, "cap");
+    if r.chance(1, 3) {
+        let w2: Vec<f64> = (0..n).map(|_| r.below(4) as f64).collect();
+        let cap2 = (w2.iter().sum::<f64>() / 2.0).floor();
+        m.add_constraint(w2, Comparison::LessOrEqual, cap2);
+    }
+    let v: Vec<f64> = (0..n).map(|_| 1.0 + r.below(9) as f64).collect();
+    m.set_objective(v, OptimizationType::Max);
+    m
+}
+
+/// a knapsack large enough for the search to be stopped MID-WAY (an incumbent exists, optimality unproven), still
+/// small enough for the certified enumeration (2^12..2^13 leaves)
+fn mid_knapsack(r: &mut Rng) -> LinearModel {
+    let n = 12 + r.below(2);
+    let mut m = LinearModel::new();
+    for i in 0..n { m.add_variable(&format!("b{}", i), VariableType::Boolean); }
+    let w: Vec<f64> = (0..n).map(|_| 10.0 + r.below(30) as f64).collect();
+    // strongly correlated values make branch and bound work
+    let v: Vec<f64> = w.iter().map(|x| x + 5.0 + r.below(3) as f64).collect();
+    let cap = (w.iter().sum::<f64>() * 0.45).floor();
+    m.add_named_constraint(w, Comparison::LessOrEqual, cap, "cap");
+    m.set_objective(v, OptimizationType::Max);
+    m
+}
+
+/// the 5-item knapsack of the design-phase probe
+pub fn seeded_knapsack() -> LinearModel {
+    let mut m = LinearModel::new();
+    for i in 0..5 { m.add_variable(&format!("b{}", i), VariableType::Boolean); }
+    m.add_named_constraint(vec![2.0, 3.0, 1.0, 4.0, 3.0], Comparison::LessOrEqual, 7.0, "cap");
+    m.set_objective(vec![5.0, 4.0, 3.0, 7.0, 6.0], OptimizationType::Max);
+    m
+}
+
+fn enc_gap(g: Option<f64>) -> String { match g { None => "none".into(), Some(g) => format!("(gap {})", sx::num(g)) } }
+fn enc_limit(l: Option<u64>) -> String { match l { None => "none".into(), Some(n) => format!("(limit {})", n) } }
+
+fn raw_status(o: &Outcome) -> String {
+    match o { Outcome::Solution(s) => s.status.clone(), _ => "unknown".into() }
+}
+
+fn one(lm: &LinearModel, lms: &str, base: &Outcome, gap: (Option<f64>, &str), limit: Option<u64>, fam: &str, fixed: bool, out: &mut Vec<Case>) {
+    let opts = Opts { time_limit_ns: limit, mip_gap_bits: gap.0.map(f64::to_bits), simplex_limit: 0 };
+    // the raw answer of microlp is reproducible only when the clock plays no role
+    let deterministic = matches!(limit, None | Some(0));
+    let mut o = child::solve(SolverKind::Milp, lm, &opts, TIMEOUT);
+    let mut raw = child::solve(SolverKind::RawMilp, lm, &opts, TIMEOUT);
+    if !deterministic {
+        // the mirror call is evidence for the root cause only if the clock hit both calls alike: when the limit changed
+        // rooc's answer but the mirror finished, try again
+        for _ in 0..5 {
+            if gen_lp::result(&o) == gen_lp::result(base) || raw_status(&raw) != "optimal" { break; }
+            o = child::solve(SolverKind::Milp, lm, &opts, TIMEOUT);
+            raw = child::solve(SolverKind::RawMilp, lm, &opts, TIMEOUT);
+        }
+    }
+    let res = gen_lp::result(&o);
+    let mut c = Case::default();
+    c.imp = res.clone();
+    if deterministic && !matches!(o, Outcome::Hang) {
+        if let Some(raw) = gen_lp::mlp(&raw) {
+            c.req = format!("{} {} {} {} {}", if fixed { "milp-with-fixed" } else { "milp-with" }, lms, enc_gap(gap.0), enc_limit(limit), raw);
+        }
+    }
+    c.oracle = format!("label {} {} {} {} {} {}", lms, enc_gap(gap.0), enc_limit(limit), res, gen_lp::result(base), raw_status(&raw));
+    let limit_tag = match limit { None => "limit-none".to_string(), Some(n) => format!("limit-{}ns", n) };
+    c.tags = vec![format!("family-{}", fam), gap.1.to_string(), limit_tag,
+        format!("microlp-status-{}", raw_status(&raw)),
+        if fixed { "wrapper-reads-status".into() } else { "wrapper-ignores-status".into() },
+        match &o {
+            Outcome::Solution(s) => format!("answer-solution-{}", s.status),
+            Outcome::Err { variant, .. } => format!("answer-err-{}", variant),
+            Outcome::Panic(_) => "answer-panic".into(),
+            Outcome::Hang => "answer-hang".into(),
+        }];
+    c.nontrivial = limit.is_some() || gap.0.is_some();
+    c.show = format!("solve_milp_lp_problem_with(gap {:?}, time_limit {:?} ns) on: {}", gap.0, limit, show_model(lm));
+    out.push(c);
+}
+
+pub fn generate(seed: u64, n: usize, _thorough: bool, _corpus: Option<&str>) -> Vec<Case> {
+    let mut r = Rng::new(seed);
+    let mut cases = vec![];
+    let gaps = gaps();
+    let fixed = gen_lp::detect_variants().milp_reads_status;
+    let mut models: Vec<(LinearModel, &str)> = vec![(seeded_knapsack(), "seeded-knapsack")];
+    for i in 0..n {
+        models.push(match i % 4 {
+            0 => (knapsack(&mut r), "knapsack"),
+            1 => (gen_lp::model(&mut r, &LpCfg { doms: Doms::Integer, naming: 0, max_vars: 5, feasible_pct: 80, allow_satisfy: false, ..LpCfg::default() }).0, "integer"),
+            2 => (gen_lp::model(&mut r, &LpCfg { doms: Doms::Mixed, naming: 0, feasible_pct: 80, allow_satisfy: false, ..LpCfg::default() }).0, "mixed"),
+            _ => (gen_lp::model(&mut r, &LpCfg { doms: Doms::Integer, naming: 0, feasible_pct: 20, allow_satisfy: false, ..LpCfg::default() }).0, "integer-random-rhs"),
+        });
+    }
+    for (lm, fam) in &models {
+        let lms = sx::lin_model(lm);
+        let base = child::solve(SolverKind::Milp, lm, &Opts::default(), TIMEOUT);
+        for l in LIMITS { one(lm, &lms, &base, gaps[0], l, fam, fixed, &mut cases); }
+        for g in &gaps[1..] { one(lm, &lms, &base, *g, None, fam, fixed, &mut cases); }
+        for _ in 0..3 {
+            let g = gaps[r.below(gaps.len())];
+            let l = LIMITS[1 + r.below(LIMITS.len() - 1)];
+            one(lm, &lms, &base, g, l, fam, fixed, &mut cases);
+        }
+    }
+    // searches stopped mid-way
+    for _ in 0..(n / 20).max(2) {
+        let lm = mid_knapsack(&mut r);
+        let lms = sx::lin_model(&lm);
+        let base = child::solve(SolverKind::Milp, &lm, &Opts::default(), TIMEOUT);
+        for l in [Some(20_000u64), Some(100_000), Some(400_000), Some(2_000_000), None] {
+            one(&lm, &lms, &base, gaps[0], l, "mid-search-knapsack", fixed, &mut cases);
+        }
+        one(&lm, &lms, &base, gaps[3], Some(100_000), "mid-search-knapsack", fixed, &mut cases);
+    }
+    child::shutdown();
+    cases
+}
